@@ -28,7 +28,8 @@ def expected_home(v1mod, sym):
             return ('SNMPv2-SMI', sym)
         if sym in ('DisplayString', 'PhysAddress'):
             return ('SNMPv2-TC', sym)
-        if sym.startswith('ipRoute') or sym.startswith('egp'):
+        if sym.startswith('ipRoute') or sym.startswith('egp') or sym == 'at' or (sym.startswith('at') and sym[2:3].isupper()):
+            # groups that no SMIv2 module took over: RFC1213-MIB remains their home
             return ('RFC1213-MIB', sym) if v1mod == 'RFC1158-MIB' else None
         if sym == 'system' or sym.startswith('sys') or sym.startswith('snmp'):
             return ('SNMPv2-MIB', sym)
